@@ -45,8 +45,22 @@ def make_fixture(cfg):
     return dm.Fixture(dm.std_reg("default"), version=v)
 
 
+BEANS = [{"__jsonclass__": ["decimal.Decimal", ["1.5"]]}, {"__jsonclass__": ["fractions.Fraction", [1, 3]]},
+         {"__jsonclass__": ["types.SimpleNamespace", {"a": 1}], "b": 2}, {"__jsonclass__": ["Klass", []]},
+         {"__jsonclass__": ["collections.OrderedDict", []]}, {"__jsonclass__": ["no.such.Klass", []]},
+         {"__jsonclass__": ["Decimal", ["2"]]}, {"__jsonclass__": ["bad-name", []]}]
+
+
 def gen_body(rng):
     r = rng.random()
+    if r < 0.1:
+        # requests carrying class descriptors (resolvable, bare, missing, invalid): translation must leave no trace
+        bean = rng.choice(BEANS)
+        e = {"method": rng.choice(["echo", "const0", "kw"]), "id": rng.choice([1, "b"]),
+             "params": [bean] if rng.random() < 0.7 else {"v": [bean]}}
+        if rng.random() < 0.7:
+            e["jsonrpc"] = "2.0"
+        return json.dumps(e if rng.random() < 0.7 else [e, reqgen.entry_of("call", rng)])
     if r < 0.55:
         kind = rng.choice(["call", "call", "notification", "failing", "unknown", "badargs", "invalid", "unconvertible"])
         return json.dumps(reqgen.entry_of(kind, rng))
